@@ -23,6 +23,9 @@ PROGRAMS = [
     "x = 1\ny = 1\nz = x + y\nx = y\ny = z\nprint(x + 1, 1 + x, x - 1)\n",
     "def f(n):\n    if n <= 1:\n        return 1\n    return n * f(n - 1)\nclass Box:\n    def __init__(self, v):\n        self.v = v\nprint(f(5), Box(2).v)\n",
     "flag = True\nnothing = None\nnum = 0\ntext = '0'\nval = 0.0\nprint(flag, nothing, num, text, val)\n",
+    "from .shapes import area\nfrom shapes import volume\nimport os.path as p\nsquares = [n * n for n in range(5) if n]\n"
+    "async def go(src):\n    return [v async for v in src]\nprint(area, volume, squares, p)\n",
+    "count = 0\nfor item in basket:\n    count = count + 1\n    price = item + 1\nprint(count + 1, price * 2)\n",
 ]
 
 HAND_PATTERNS = [
@@ -33,6 +36,8 @@ HAND_PATTERNS = [
     "_a_ = ___\n_b_ = ___\n_a_ = _b_", "while ___:\n    _i_ = _i_ + 1", "import ___", "___[___]", "_d_[___] = _d_[___] + 1",
     "class _C_:\n    pass", "___.___", "_x_ == ___", "___ % 2 == 0", "x = 0", "x = 1", "y = 1\nx = y", "x = y\ny = 1", "print(x)",
     "x + 1", "1 + x", "x - 1", "1 - x", "_v_ = None", "_v_ = True", "_v_ = 0", "_v_ = '0'", "_v_ = 0.0", "_v_ = 1", "return ___",
+    "from shapes import area", "from shapes import volume", "from .shapes import area", "[_x_ for _x_ in ___]",
+    "[___ for ___ in ___]", "[_x_ * _x_ for _x_ in ___ if _x_]", "import os.path as p",
     "for _w_ in ___:\n    print(_w_)", "for _w_ in ___:\n    print(len(_w_))", "for _w_ in ___:\n    print(_q_)",
 ]
 
@@ -230,6 +235,12 @@ def derived_patterns(program, rnd, per_program):
     return out
 
 
+# follow-up searches: the second pattern continues a match of the first (use_previous)
+FOLLOW_UPS = [("for _item_ in ___:\n    pass", "_item_ + 1"), ("for _item_ in ___:\n    pass", "_item_ + ___"),
+              ("_x_ = 0", "_x_ + 1"), ("_x_ = 0", "_x_ = _x_ + ___"), ("_x_ = ___", "print(_x_)"), ("_x_ = ___", "_x_ * 2"),
+              ("def _f_(___):\n    pass", "_f_(___)"), ("_a_ = 2", "_a_ * _b_"), ("_a_ = 2", "_b_ * _a_ + ___")]
+
+
 def run_matcher(pattern, program):
     from pedal.core.commands import clear_report, contextualize_report
     from pedal.cait.cait_api import find_matches
@@ -275,11 +286,30 @@ def bounded(arg):
                     if sum(1 for f in failures if f['id'] == canon) < 15:
                         failures.append({'id': canon, 'canon': canon,
                                          'detail': detail + ' | pattern %r | program %r' % (pattern, program)})
+    follow_ups = 0
+    from pedal.cait.cait_api import find_matches
+    for program in PROGRAMS:
+        for first, second in FOLLOW_UPS:
+            for m1 in run_matcher(first, program) or []:
+                evaluations += 1
+                distinct.add((first, second, program))
+                try:
+                    later = find_matches(second, use_previous=m1)
+                except Exception as e:
+                    failures.append({'id': 'matcher_raises', 'canon': 'matcher_raises',
+                                     'detail': '%r on follow-up %r after %r, program %r' % (e, second, first, program)})
+                    continue
+                for m2 in later or []:
+                    follow_ups += 1
+                    for canon, detail in check_match(m2, second, program):
+                        if sum(1 for f in failures if f['id'] == canon) < 15:
+                            failures.append({'id': canon, 'canon': canon, 'detail': detail + ' | follow-up pattern %r after %r | program %r' % (
+                                second, first, program)})
     samples = [{'pattern': HAND_PATTERNS[0], 'program': PROGRAMS[0]}, {'pattern': HAND_PATTERNS[13], 'program': PROGRAMS[4]}]
     return {'name': 'B-cait-sound', 'bound': '%d programs x (%d hand-written patterns + %d patterns derived from the program\'s own '
             'subtrees by renaming identifiers to _var_ placeholders / wildcards, with conflicting variants, plus patterns derived from the other programs): %d pairs, %d with '
-            'matches, %d matches checked against the witness checker' % (len(PROGRAMS), len(HAND_PATTERNS), 25 if quick else 150,
-                                                                         evaluations, matched_pairs, total_matches),
+            'matches, %d matches checked against the witness checker; %d follow-up matches (use_previous) of %d pattern pairs' % (len(PROGRAMS), len(HAND_PATTERNS), 25 if quick else 150,
+                                                                         evaluations, matched_pairs, total_matches, follow_ups, len(FOLLOW_UPS)),
             'evaluations': evaluations, 'distinct_nontrivial': len(distinct),
             'rule': 'distinct = (pattern, program)', 'samples': samples, 'failures': failures}
 
